@@ -41,9 +41,17 @@ def run(eng, rep, tier):
               "a body symbol is copied as is only on the branch where it is not a key of the operand's renaming map",
               "a body symbol can be copied un-renamed although it is a variable of the operand (capture)", summ,
               site=(unguarded[0].site.to_json() if unguarded else site_of(prog, fi, fi.node)))
-    resets = [s for s in ast.walk(fi.node) if isinstance(s, ast.Assign) and any(isinstance(tg, ast.Name) and tg.id == "idx"
+    # the counter = the name spliced (through str()) into the renamed variable names
+    ctr_names = set()
+    for c in ast.walk(fi.node):
+        if isinstance(c, ast.Call) and getattr(c.func, "id", "") == "Variable" and c.args:
+            for sub in ast.walk(c.args[0]):
+                if isinstance(sub, ast.Call) and getattr(sub.func, "id", "") == "str" and sub.args and \
+                        isinstance(sub.args[0], ast.Name):
+                    ctr_names.add(sub.args[0].id)
+    resets = [s for s in ast.walk(fi.node) if isinstance(s, ast.Assign) and any(isinstance(tg, ast.Name) and tg.id in ctr_names
                                                                                 for tg in s.targets)]
-    ob.decide("R5", "C10.1", fi, "counter-shared-across-operands", len(resets) == 1,
+    ob.decide("R5", "C10.1", fi, "counter-shared-across-operands", len(ctr_names) == 1 and len(resets) == 1,
               "one renaming counter runs through self and every substituted grammar (never reset)",
               "the renaming counter is reset between operands: the same object used twice gets the same names", None,
               site=site_of(prog, fi, resets[-1] if resets else fi.node))
